@@ -9,6 +9,7 @@ COQ_TARGETS = ["props/C06.vo", "proofs/ConstsTie.vo"]
 THEOREMS = [("C06", ["C06_grammar", "C06_layout", "C06_header_is_grammar", "C06_accepts", "C06_accepts_codec_absent", "C06_long", "C06_long_is_crate", "C06_codec_layout", "C06_codec_values", "C06_snappy_crc32_layout"])]
 PROOF_FILES = ["proofs/ContainerProofs.v", "props/C06.v", "proofs/ContainerReadProofs.v", "proofs/ContainerHeaderProofs.v", "proofs/ContainerCodecProofs.v", "proofs/ContainerCodecLayout.v"]
 TRUSTED_BASE = [
+    "sink refusals (lib/cont.py refusal_runs / judge_refusals): one zero-length write or hard error (plain or of a named std::io::ErrorKind -- harness sink answer (h KIND); the model has ONE hard answer, VectoredWrite.Hard, for all kinds other than Interrupted) at a call index of a block flush, then a working sink, under a caller that keeps using the writer. What every later call returns and what the sink holds is Container.wrun under the same schedule (flush_finished keeps w_pending and the buffer on the error path: the block is re-sent from its start) -- compared for the null codec. The verdict on a CLEAN refusal (no byte of the block accepted) is a Python-side reading of the property, stated here: every later call that returns Ok leaves a file the extracted reference parser accepts, whose blocks (independent decoders) hold exactly the encodings of the values they announce, a prefix of the values (all after finish_block / into_inner / drop); the value of the refused serialize call itself may or may not be counted (the model keeps it)",
     "Coq 8.16.1 kernel; no axioms (Print Assumptions: closed); no native_compute",
     "extraction (ExtrOcamlBasic only) + ocaml/driver.ml (parsing/printing); Rust harness avrodrive",
     "spec/FileSpec.v transcribes the container layout of the Avro specification; its extracted parser judges the crate's files",
@@ -263,6 +264,29 @@ def run(ctx):
         else:
             diffs.append({"impl_case": line, "what": "the file written through %s differs from the accept-everything sink's file (both readable); %s" % (sink_kind, how)})
     n_sched = len(sruns) + sum(1 for r in sruns if r["rm"] is not None) + 3 * len(q)
+    # (1c) files written through a sink that refuses ONE write of a block flush (zero-length write / hard error of some kind) and then
+    # works again, by a caller that retries (finish_block again, more values, into_inner): whatever the writer reports as written
+    # (every later call that returns Ok, after a refusal that accepted no byte of the block) must be a file of the specified layout
+    rcases = []
+    for _ in range(40 if ctx["tier"] == "quick" else 800):
+        h = cont.History(rng, n_values=rng.choice([1, 2, 3, 5]), schema_kw={"max_nodes": rng.choice([1, 4]), "max_depth": 3, "logical": False})
+        h.prepare()
+        rops, rexp = cont.retry_ops(rng, h, end=rng.choice(["into_inner", "into_inner", "none"]))
+        c = rng.choice(cont.CODECS) if rng.random() < 0.5 else "null"
+        meta = [("k%d" % x, G.rand_bytes(rng)) for x in range(rng.choice([0, 0, 2]))]
+        rcases.append({"h": h, "ops": rops, "codec": c, "bsz": rng.choice([0, 0, 3, 64, 65536]), "meta": meta, "start": None})
+    for c, r in zip(rcases, C.run_parallel(C.AVRODRIVE, ["freeze " + c["h"].schema for c in rcases])):
+        c["json"] = C.unhex(C.parse_sx(r)[0][2])
+    rbl = [cont.cw_line(c["h"], c["codec"], c["bsz"], "vec", c["meta"], c["ops"]) for c in rcases]
+    for c, bl, r in zip(rcases, rbl, C.run_parallel(C.AVRODRIVE, rbl)):
+        c["bp"] = cont.parse_cw(r)
+        if c["bp"] is None or c["bp"].get("build_err") or any(res != "ok" for res, _ in c["bp"]["ops"]):
+            violations.append({"impl_case": clip(bl), "what": "writing failed", "impl": r[:300]})
+            c["bp"] = None
+    rcases = [c for c in rcases if c["bp"] is not None]
+    rruns = cont.refusal_runs(rng, rcases, n_bases=3)
+    n_sched += len(rbl) + len(rruns) + sum(1 for r in rruns if r["rm"] is not None)
+    n_sched += cont.judge_refusals(rruns, rcases, violations, diffs, dist, surfaces=False, clip=clip)
     # (2) files from an independent conforming writer, read by the crate
     rl, rmeta = [], []
     for i, (h, ops, expected, c, b, meta, start) in enumerate(hs):
@@ -324,6 +348,10 @@ def run(ctx):
                     "block header / data / sync marker or std's default, k chosen against the blocks' lengths, irregular sizes, 'interrupted' at call indexes of block flushes incl. after "
                     "partial progress, bursts up to 40, every call once / twice): writing succeeds, the file = the one above (= the writer model's under the same schedule, null codec); a "
                     "file that differs is itself parsed by the reference parser, decoded, read by the crate and by apache-avro; "
+                    "(1c) files written through a sink that refuses ONE write of a block flush (zero-length write / hard error of some kind; first sink call of the flush, second, last, "
+                    "random) and then works again, by a caller that retries (finish_block again, more values, into_inner): after a refusal that accepted no byte of the block, what every "
+                    "later call that returns Ok leaves in the sink is a file of the layout (reference parser, independent decoders: each block's data = the encodings of the values it "
+                    "announces, all values after finish_block / into_inner); writer model under the same schedule (null codec); "
                     "(2) files from an independent writer (any block partition, shuffled metadata in any map layout incl. negative counts, extra "
                     "keys, avro.codec absent, deflate/bzip2/xz at several levels/checks) and (3) files written by apache-avro (six codecs) read by the crate",
             "samples": samples, "violations": violations, "model_diffs": diffs,
